@@ -1,4 +1,5 @@
 import PwVerif.Model.Framing
+import PwVerif.Model.Registry
 /-!
 Line-protocol driver: `lake env lean --run PwVerif/Driver.lean < cases.txt`.
 One case per input line, one canonical observation per output line. Used by the
@@ -50,9 +51,43 @@ def c10 (args : List String) : String :=
     | _, _, _ => "bad-op"
   | _ => "bad-op"
 
+/-! ## c19: `c19 <op> <op> ...` with ops `c1 c0 f<w> r<w> a x`;
+output per `a`/`x`: `<sorted yielded ids>;<registry size after>` joined by `|` -/
+def insertSorted (x : Nat) : List Nat → List Nat
+  | [] => [x]
+  | y :: ys => if x ≤ y then x :: y :: ys else y :: insertSorted x ys
+def sortNats (l : List Nat) : List Nat := l.foldr insertSorted []
+
+open PwVerif.Registry in
+def c19Op (t : String) : Option Op :=
+  if t == "c1" then some (.create true)
+  else if t == "c0" then some (.create false)
+  else if t == "a" then some .active
+  else if t == "x" then some .autoclose
+  else if t.startsWith "f" then (t.drop 1).toNat?.map .finish
+  else if t.startsWith "r" then (t.drop 1).toNat?.map .restart
+  else none
+
+open PwVerif.Registry in
+def c19 (args : List String) : String :=
+  match args.mapM c19Op with
+  | none => "bad-op"
+  | some ops =>
+    let rec go (s : St) (ops : List Op) (acc : List String) : List String :=
+      match ops with
+      | [] => acc.reverse
+      | op :: rest =>
+        let (s', out) := step s op
+        match op with
+        | .active | .autoclose =>
+          go s' rest ((",".intercalate ((sortNats out).map toString) ++ ";" ++ toString s'.reg.length) :: acc)
+        | _ => go s' rest acc
+    "|".intercalate (go {} ops [])
+
 def step (line : String) : String :=
   match (line.trimAscii.toString.splitOn " ").filter (· ≠ "") with
   | "c10" :: args => c10 args
+  | "c19" :: args => c19 args
   | _ => "bad-op"
 
 partial def loop (h : IO.FS.Stream) : IO Unit := do
